@@ -30,14 +30,16 @@
  *               of <= D such answers over the first W sink calls
  *   enc-refuse-n the two _n entry points asked for more than any kind can
  *               frame *and* more than the buffer holds (n up to SIZE_MAX, every
- *               buffer state incl. offset > 0): refused, nothing emitted, the
- *               buffer is not moved backwards; then a second slice off the
- *               same buffer
+ *               buffer state incl. offset > 0): either refused, nothing emitted,
+ *               the buffer is not moved backwards, then a second slice off the
+ *               same buffer; or (at-most reading) exactly the unread octets are
+ *               framed and the buffer is advanced by their number
  *   enc-max ... first-sink-answer  the maxima with a sink that takes 2^31 /
  *               2^32-11 / 2^32-4 / 2^32-5 / 2^32 octets in its first call
  *   dec-huge    frames of 2^32-1 .. 2^33 octets into an untouched 8 GiB mapping
  *               from a source that delivers one of those counts in its first
- *               read (octets identified by address)
+ *               read (octets identified by address; a decoder that does not
+ *               deliver in place -- bounce buffer -- is not judged)
  *
  * Case numbering never depends on the implementation's behaviour.
  */
@@ -701,10 +703,46 @@ enc_small(size_t S)
 
 /* ---- the _n entry points asked for more than there is ------------------- */
 
-/* n is beyond the kind's maximum (so the request has to be refused before
- * anything is emitted) and beyond the buffer's unread content (so there are no
- * "first n unread octets" that could be skipped).  Then a second slice is taken
- * off the same buffer: it has to carry the first unread octets, as always. */
+/* Silent comparisons (no mc_fail): is what came out the frame of exactly the
+ * `len` octets at `pay`? */
+static bool
+obj_is_frame(int k, uint64_t len, const unsigned char *pay, const LengthPrefixBuffer *lpb)
+{
+    unsigned char pfx[10];
+    const size_t pl = ref_prefix(k, len, pfx);
+    const ByteBuffer *p = &lpb->prefix, *q = &lpb->payload;
+    if (p->data < lpb->prefix_ || p->data > lpb->prefix_ + VARINT_64BIT_MAX_OCTETS
+        || p->used > (size_t)(lpb->prefix_ + VARINT_64BIT_MAX_OCTETS - p->data) || p->offset > p->used)
+        return false;
+    if (p->used - p->offset != pl || memcmp(p->data + p->offset, pfx, pl) != 0)
+        return false;
+    return q->offset <= q->used && q->used - q->offset == len && q->data + q->offset == pay;
+}
+
+static bool
+sink_is_frame(int k, uint64_t len, const unsigned char *pay, const struct rec *r, ssize_t rc)
+{
+    unsigned char pfx[10];
+    const size_t pl = ref_prefix(k, len, pfx);
+    return !r->overflow && r->n == pl + len && memcmp(r->buf, pfx, pl) == 0
+        && memcmp(r->buf + pl, pay, (size_t)len) == 0 && rc >= 0 && (uint64_t)rc == pl + len;
+}
+
+/* n is beyond the kind's maximum and beyond the buffer's unread content.  The
+ * statement speaks of "its first n unread octets" and has no sentence for an n
+ * that exceeds what the buffer holds, so two answers are admissible:
+ *   (a) the request is refused (any negative code) with nothing emitted; the
+ *       read position stays inside [old offset, used] (clause *-position);
+ *   (b) the entry point frames what there is (an "at most n" reading): exactly
+ *       the `rest` unread octets -- prefix = rest in the kind's encoding,
+ *       payload = those octets, total reported, buffer advanced by rest --
+ *       provided rest is a length the kind can frame.  With rest == 0 that is a
+ *       frame of no octets, which the statement (lengths from 1) does not
+ *       describe: only the read position is judged then.
+ * Anything else -- an accepting return that is not that frame -- is neither a
+ * refusal of the over-long request nor a frame of designated octets.
+ * After (a) a second slice is taken off the same buffer from wherever the read
+ * position is now: it has to carry the first unread octets, as always. */
 static void
 run_refuse_n(int k, enum ep ep, size_t size, size_t used, size_t off, uint64_t n)
 {
@@ -715,25 +753,53 @@ run_refuse_n(int k, enum ep ep, size_t size, size_t used, size_t off, uint64_t n
     const char *name = epname[ep];
     const bool sinky = (ep == EP_BUF_SINK_N);
     for (int round = 0; round < 2; ++round) {
-        /* round 0: the refused request; round 1: everything that is unread now */
+        /* round 0: the over-long request; round 1: everything that is unread now */
         const size_t o = b.offset;
-        const uint64_t want = round ? used - o : n;
+        const size_t rest = used - o;
+        const uint64_t want = round ? rest : n;
         mc_trans(1);
-        bool acc;
+        bool acc = false, atmost = false, frame = false;
+        ssize_t rc;
+        size_t emitted = 0;
         if (!sinky) {
             LengthPrefixBuffer *lpb = mc_exact(sizeof *lpb);
             memset(lpb, 0, sizeof *lpb);
-            const int rc = flenp_buffer_encode_n(klib[k], lpb, &b, (size_t)want);
-            acc = judge_obj(name, k, want, mem + o, lpb->prefix_, &lpb->prefix, &lpb->payload, rc);
+            rc = flenp_buffer_encode_n(klib[k], lpb, &b, (size_t)want);
+            if (round == 0 && rc >= 0) {
+                atmost = true;
+                frame = obj_is_frame(k, rest, mem + o, lpb);
+            } else {
+                acc = judge_obj(name, k, want, mem + o, lpb->prefix_, &lpb->prefix, &lpb->payload, (int)rc);
+            }
             free(lpb);
         } else {
             struct rec r;
-            rec_init(&r, round ? (size_t)want + 10u : 16u);
+            rec_init(&r, round ? (size_t)want + 10u : rest + 16u);
             Sink s;
             rec_sink(&s, &r, 0);
-            const ssize_t rc = flenp_buffer_to_sink_n(klib[k], &s, &b, (size_t)want);
-            acc = judge_sink(name, k, want, mem + o, &r, rc);
+            rc = flenp_buffer_to_sink_n(klib[k], &s, &b, (size_t)want);
+            if (round == 0 && rc >= 0) {
+                atmost = true;
+                frame = sink_is_frame(k, rest, mem + o, &r, rc);
+                emitted = r.n + r.overflow;
+                mc_log_hex("emitted-head", r.buf, r.n < 24 ? r.n : 24);
+            } else {
+                acc = judge_sink(name, k, want, mem + o, &r, rc);
+            }
             free(r.buf);
+        }
+        if (atmost) {
+            mc_log("%s rc=%zd emitted=%zu: the over-long request was not refused; %zu octets were unread", name, rc, emitted, rest);
+            if (rest == 0) {
+                mc_log("nothing was unread: a frame of no octets is outside the statement, only the read position is judged");
+                check_position(name, &b, mem, size, used, off, n);
+            } else if (ref_verdict(k, rest, sinky) == V_ACCEPT && frame) {
+                check_advance(name, &b, mem, size, used, o, rest);
+            } else {
+                mc_fail(clause(name, "refuses-overmax"), "n=%llu is beyond the %s maximum and beyond the %zu unread octets: returned %zd, which is neither a refusal nor the frame of exactly the %zu unread octets",
+                        (unsigned long long)n, kname[k], rest, rc, rest);
+            }
+            break; /* an at-most frame leaves nothing for a second slice */
         }
         if (mc.cur_failed)
             break;
@@ -1532,7 +1598,19 @@ dec_max(void)
  * identifies the payload octets of a read by the address it is asked to fill:
  * the read that follows `moved` payload octets has to name destination +
  * moved.  Its first payload read delivers `first` octets, the following ones
- * everything asked. */
+ * everything asked.
+ *
+ * That is a technique, not a sentence of the statement: the statement says the
+ * payload is returned, not that the caller's destination is handed to the
+ * source.  A decoder that asks its source to fill memory *outside the mapping*
+ * (a private bounce buffer) delivers the payload by copying, which this source
+ * cannot follow (it never writes an octet): such a case is ended at once and
+ * "not judged" (a cap), never a violation.  A read that names the mapping but
+ * not destination + moved is judged -- the octets the source stands for are
+ * where it was asked to put them -- unless pages of the mapping exist
+ * afterwards (the decoder itself worked on the destination: not judged
+ * either).  No address or address difference involving memory outside the
+ * mapping is ever logged. */
 #define ARENA_SIZE ((1ull << 33) + (1ull << 20))
 static unsigned char *ARENA;
 
@@ -1540,9 +1618,10 @@ struct hsrc {
     unsigned char pfx[10];
     size_t npfx, ppos;
     uint64_t len, moved, first;
-    bool first_done, bad, gave_up;
+    bool first_done, bad, gave_up, outside;
     uintptr_t dst;
-    long calls, bad_call;
+    uintptr_t map_lo, map_hi; /* the mapping the destination lies in */
+    long calls, bad_call, outside_call;
     long long bad_off;
     uint64_t bad_moved;
 };
@@ -1565,10 +1644,22 @@ hsrc_chunk(void *drv, void *data, size_t n)
     }
     if (h->moved >= h->len)
         return -ENODATA;
-    if ((uintptr_t)data != h->dst + h->moved && !h->bad) {
+    const uintptr_t a = (uintptr_t)data;
+    if (a < h->map_lo || a >= h->map_hi) {
+        /* not delivered in place: nothing more can be learnt from this call */
+        if (!h->outside) {
+            h->outside = true;
+            h->outside_call = h->calls;
+        }
+        mc_log("source call %ld: asked to fill %zu octets outside the destination", h->calls, n);
+        return -EIO;
+    }
+    /* both addresses lie in the mapping: their difference does not depend on where the mapping is */
+    const long long at = (long long)(intptr_t)(a - h->dst);
+    if (a != h->dst + h->moved && !h->bad) {
         h->bad = true;
         h->bad_call = h->calls;
-        h->bad_off = (long long)(intptr_t)((uintptr_t)data - h->dst);
+        h->bad_off = at;
         h->bad_moved = h->moved;
     }
     uint64_t t = h->len - h->moved;
@@ -1580,24 +1671,52 @@ hsrc_chunk(void *drv, void *data, size_t n)
             t = h->first;
     }
     h->moved += t;
-    mc_log("source call %ld: asked to fill %zu octets at offset %lld of the destination -> %llu", h->calls, n,
-           (long long)(intptr_t)((uintptr_t)data - h->dst), (unsigned long long)t);
+    mc_log("source call %ld: asked to fill %zu octets inside the destination at offset %lld -> %llu", h->calls, n, at,
+           (unsigned long long)t);
     return (ssize_t)t;
 }
 
-/* The family rests on the destination never being touched.  The decoders only
- * pass its address to the source, but an implementation may do more with a
- * destination it was given; so both decoders are first run once on a 64 MiB
- * mapping and its pages are counted: if more than a handful came into
- * existence, the cases are numbered but not run and the run is marked
- * incomplete -- never a violation. */
+/* number of pages of [m, m+size) that exist */
+static size_t
+resident_pages(unsigned char *m, uint64_t size)
+{
+    const uint64_t pagesz = (uint64_t)sysconf(_SC_PAGESIZE);
+    const uint64_t step = (uint64_t)256 << 20; /* 65536 pages per mincore call */
+    unsigned char *vec = malloc((size_t)(step / pagesz) + 1u);
+    if (vec == NULL)
+        mc_broken("no memory for the page vector");
+    size_t resident = 0;
+    for (uint64_t o = 0; o < size; o += step) {
+        const uint64_t l = size - o < step ? size - o : step;
+        if (mincore(m + o, (size_t)l, vec) != 0)
+            mc_broken("mincore failed on a mapping of the harness");
+        for (uint64_t i = 0; i < (l + pagesz - 1) / pagesz; ++i)
+            resident += vec[i] & 1u;
+    }
+    free(vec);
+    return resident;
+}
+
+static void
+dec_huge_cap(void)
+{
+    static bool said;
+    if (!said)
+        mc_cap("a decoder does not just hand the destination to its source (bounce buffer / works on the destination itself): dec-huge cases not judged");
+    said = true;
+}
+
+/* The family rests on the payload being delivered in place into a destination
+ * that is never touched.  So both decoders are first run once on a 64 MiB
+ * mapping: if the source is asked to fill memory outside it (exact: the first
+ * such call decides, whatever the size of the bounce buffer), or if pages of
+ * it came into existence (more than a handful), the cases are numbered but not
+ * run and the run is marked incomplete -- never a violation. */
 static bool
 dec_huge_probe(void)
 {
     const uint64_t size = (uint64_t)64 << 20, len = size - 64u;
-    const uint64_t pagesz = (uint64_t)sysconf(_SC_PAGESIZE);
-    unsigned char *vec = malloc((size_t)(size / pagesz) + 1u);
-    bool ok = vec != NULL;
+    bool ok = true;
     for (int d = 0; ok && d < 2; ++d) {
         unsigned char *m = mmap(NULL, size, PROT_READ | PROT_WRITE, MAP_PRIVATE | MAP_ANONYMOUS | MAP_NORESERVE, -1, 0);
         if (m == MAP_FAILED)
@@ -1607,6 +1726,8 @@ dec_huge_probe(void)
         h.npfx = ref_prefix(K_VAR, len, h.pfx);
         h.len = len;
         h.first = len;
+        h.map_lo = (uintptr_t)m;
+        h.map_hi = (uintptr_t)m + size;
         Source src;
         chunk_source_init(&src, hsrc_chunk, &h);
         if (d == D_MEM) {
@@ -1617,17 +1738,12 @@ dec_huge_probe(void)
             h.dst = (uintptr_t)m + 3u;
             (void)flenp_buffer_from_source(klib[K_VAR], &src, &b);
         }
-        size_t resident = 0;
-        if (mincore(m, size, vec) != 0)
-            mc_broken("mincore failed on the probe mapping");
-        for (uint64_t i = 0; i < size / pagesz; ++i)
-            resident += vec[i] & 1u;
+        const size_t resident = resident_pages(m, size);
         munmap(m, size);
-        ok = resident <= 8;
+        ok = !h.outside && resident <= 8;
     }
-    free(vec);
     if (!ok)
-        mc_cap("a decoder works on the destination beyond passing it to the source (dec-huge cases not run)");
+        dec_huge_cap();
     return ok;
 }
 
@@ -1653,6 +1769,7 @@ dec_huge(void)
                                      d == D_BUF ? " used=3 off=1" : ""))
                             continue;
                         if (!runnable) {
+                            mc_log("not run: the probe found a decoder that does not deliver in place into an untouched destination");
                             mc_end(false, "dechuge-not-run");
                             continue;
                         }
@@ -1661,10 +1778,13 @@ dec_huge(void)
                         h.npfx = ref_prefix(k, len, h.pfx);
                         h.len = len;
                         h.first = FIRST[fi];
+                        h.map_lo = (uintptr_t)ARENA;
+                        h.map_hi = (uintptr_t)ARENA + ARENA_SIZE;
                         Source src;
                         chunk_source_init(&src, hsrc_chunk, &h);
                         ssize_t rc;
                         bool state_ok = true;
+                        const char *outcome = "dechuge-accept";
                         mc_trans(1);
                         if (d == D_MEM) {
                             h.dst = (uintptr_t)ARENA;
@@ -1678,10 +1798,26 @@ dec_huge(void)
                         }
                         mc_log("%s rc=%zd, %llu payload octets delivered in %ld source calls", decname[d], rc,
                                (unsigned long long)h.moved, h.calls);
-                        if (h.bad)
-                            mc_fail(clause(decname[d], "returns-payload"), "source call %ld was asked to fill the destination at offset %lld after %llu payload octets had been delivered: the payload does not arrive in place",
-                                    h.bad_call, h.bad_off, (unsigned long long)h.bad_moved);
-                        else if (h.gave_up && h.moved <= len)
+                        if (h.outside) {
+                            /* a bounce buffer (the probe does not see one that is only used for frames this long) */
+                            mc_log("not judged: source call %ld was asked to fill memory outside the destination, the payload is not delivered in place",
+                                   h.outside_call);
+                            dec_huge_cap();
+                            outcome = "dechuge-not-judged";
+                        } else if (h.bad) {
+                            if (resident_pages(ARENA, ARENA_SIZE) != 0) {
+                                /* the decoder itself moved octets inside the destination: where the source
+                                 * was asked to put them is not where they are */
+                                mc_log("not judged: the decoder worked on the destination itself");
+                                if (madvise(ARENA, ARENA_SIZE, MADV_DONTNEED) != 0)
+                                    mc_broken("cannot release the pages of the destination mapping");
+                                dec_huge_cap();
+                                outcome = "dechuge-not-judged";
+                            } else {
+                                mc_fail(clause(decname[d], "returns-payload"), "source call %ld was asked to fill the destination at offset %lld after %llu payload octets had been delivered (and the decoder never touched the destination itself): the payload does not arrive in place",
+                                        h.bad_call, h.bad_off, (unsigned long long)h.bad_moved);
+                            }
+                        } else if (h.gave_up && h.moved <= len)
                             /* every read so far delivered in place: an implementation that reads little at a time */
                             mc_log("not judged: %ld source calls delivered a prefix of the payload only", h.calls);
                         else if (rc < 0 || (uint64_t)rc != len || h.moved != len)
@@ -1690,7 +1826,7 @@ dec_huge(void)
                         else if (!state_ok)
                             mc_fail(clause(decname[d], "appends"), "buffer after a frame of %llu octets does not hold it behind the old fill mark",
                                     (unsigned long long)len);
-                        mc_end(true, "dechuge-accept");
+                        mc_end(strcmp(outcome, "dechuge-accept") == 0, outcome);
                     }
 }
 
@@ -1960,16 +2096,17 @@ main(int argc, char **argv)
     for_shapes(T ? 13 : 10, shape_getbuffer);
     stream_two_cuts();
     streams_octet(T ? 16 : 12);
-    char bound[1400];
+    char bound[1600];
     snprintf(bound, sizeof bound,
              "6 kinds; encoders: buffer states size<=%d x n<=rest, chunk lists <=%d chunks (rest 0..3, lead/slack 0..1, active<=%d), "
              "lengths 1..1100 + 65534..65536, maxima 2^31,2^32,SSIZE_MAX +-1 via fake buffers (also into a sink whose first call takes "
              "1, 2^31, 2^32-11, 2^32-4, 2^32-5 or 2^32 octets); _n requests beyond every maximum and beyond the content (256 .. SIZE_MAX, "
-             "each straddling 2^32, SSIZE_MAX, SIZE_MAX by the buffer size) on every buffer state size<=%d followed by a second slice; "
+             "each straddling 2^32, SSIZE_MAX, SIZE_MAX by the buffer size) on every buffer state size<=%d (refused, then a second slice; "
+             "or exactly the unread octets framed); "
              "sink encoders with lengths <=%d into chunk/octet sinks under every placement of <=%d answers from {1, asked-1, 0, EINTR, EAGAIN} "
              "over the first %d/%d calls; decoders: buffer states size<=%d, "
              "lengths 1..1100 x cap len-1..len+1, maxima vs real capacities 1 and 7, accepting decodes of 2^32-3 .. 2^33 octets with a first "
-             "read of 1, 2^31, 2^32-11, 2^32-4, 2^32-5, 2^32, 2^33-4 octets; streams of 1..3 frames with <=%d octets under all 2^(L-1) "
+             "read of 1, 2^31, 2^32-11, 2^32-4, 2^32-5, 2^32, 2^33-4 octets (judged where the decoder delivers in place); streams of 1..3 frames with <=%d octets under all 2^(L-1) "
              "fragmentations (streams <=%d octets also from a source offering a scratch block of 1, 3, 8 octets, sink decoder), "
              "130-octet stream under all <=2-cut fragmentations, octet source",
              T ? 8 : 6, T ? 4 : 3, T ? 3 : 2, T ? 6 : 4, T ? 5 : 3, T ? 3 : 2, T ? 6 : 4, T ? 8 : 6, T ? 8 : 6, T ? 16 : 12, T ? 13 : 10);
